@@ -270,7 +270,9 @@ func genAdmitCase(r *Rng, i int, k AdmitKnobs) *AdmitCase {
 	switch faultSite {
 	case 0:
 		a.NSErr = true
+		a.NSErrKind = r.Intn(len(nsErrKinds))
 		tag("fault.nsLookup")
+		tag("fault.nsLookup." + nsErrKinds[a.NSErrKind])
 	case 1:
 		a.Obj = ObjSpec{Kind: "err"}
 		tag("fault.objDecode")
